@@ -13,7 +13,18 @@ from ..symstr import char_is, is_space
 from ..oracles import dtspec
 from .. import gen
 from . import common, pipeline as P
-from .c01 import VIEWS, XML
+from .c01 import VIEWS as _VIEWS01, XML as _XML01
+from . import c12
+
+# the C12 schema (abstract slots) with the types of the generated component packages: texts that
+# '%import' a package and overrides addressed to sections of an imported type
+XML = dict(_XML01)
+VIEWS = dict(_VIEWS01)
+XML['I12'] = c12.XML
+_v = c12.VIEW.clone()
+_v.add_component(c12.PACKAGES['vfq_a'])
+_v.add_component(c12.PACKAGES['vfq_b'])
+VIEWS['I12'] = _v
 
 W2 = ['w', 2]
 V1 = ['v', 1]
@@ -51,6 +62,19 @@ TEXTS['U4'] = ('S4', [('sec', 'ta', N('n1'), [('sec', 'tb', N('n2'), [('sec', 't
                                                                        ('sec', 'tc', N('n4'), []),
                                                                        ('kv', 'kb', 'v')]),
                                               ('kv', 'ka', 'w')])])
+
+# '%import' lines are carried as ('raw', line, None) items: rendered verbatim, never edited
+TEXTS['I1'] = ('I12', [('raw', '%import vfq_a', None),
+                       ('sec', 'pa', 'n1', [('kv', 'ka', '1')]),
+                       ('sec', 'ta', None, [('kv', 'ka', '2')]),
+                       ('raw', '%import vfq_b', None),
+                       ('sec', 'tb', 'n2', [('kv', 'kb', '3')]),
+                       ('sec', 'pb', 'n3', []),
+                       ('kv', 'kz', 'z')])
+SPECS_I = [
+    ('I1', [[W2, '/ka=', V1]]), ('I1', [['n2/kb=', V1]]), ('I1', [['pa/ka=', V1], ['PB/kb=7']]),
+    ('I1', [['n3/', W2, '=', V1]]), ('I1', [[W2, '/kb=', V1], ['kz=', V1]]),
+]
 
 SPECS_U = [
     ('U2', [['ta/ka=', V1]]), ('U2', [['tb/ka=', V1]]), ('U2', [[W2, '/ka=', V1]]),
@@ -97,7 +121,9 @@ SPECS_T = SPECS_Q + [
 def render(struct, ind=''):
     out = []
     for it in struct:
-        if it[0] == 'kv':
+        if it[0] == 'raw':
+            out.append(ind + it[1])
+        elif it[0] == 'kv':
             out.append(ind + it[1] + ((' ' + it[2]) if len(it[2]) > 0 else ''))
         else:
             hdr = '<' + it[1] + ((' ' + it[2]) if it[2] is not None else '') + '>'
@@ -234,7 +260,7 @@ class C14(P.TextMixin, Harness):
     functions = ('ZConfig.cmdline.', 'ZConfig.loader._get_config_loader', 'ZConfig.matcher.',
                  'ZConfig.loader.', 'ZConfig.cfgparser.')
     assumptions = (
-        'texts T2, T4, T6, T7 (concrete) and U2, U4 (section names and a key symbolic, so names may coincide with '
+        'texts T2, T4, T6, T7, I1 (concrete; I1 %import-s two generated component packages and has sections of imported types) and U2, U4 (section names and a key symbolic, so names may coincide with '
         'each other or with type names), sections up to depth 3, schemas S2, S4, S6; '
         'override lists of 1-2 (thorough: up to 4) specifiers from the templates in vf/harness/c14.py',
         'override values with leading or trailing whitespace cannot be expressed as a text line and are '
@@ -255,6 +281,10 @@ class C14(P.TextMixin, Harness):
     def units(self, tier):
         us = [{'text': t, 'files': [['specs', specs]]}
               for t, specs in (SPECS_Q if tier == 'quick' else SPECS_T)]
+        for t, specs in SPECS_I:
+            us.append({'text': t, 'files': [['specs', specs]]})
+        for t, specs in SPECS_I[:3]:
+            us.append({'text': t, 'files': [['specs', specs]], 'same_loader': True})
         for t, specs in SPECS_U:
             us.append({'text': t, 'files': [['specs', specs], ['names', [[h] for h in _holes(TEXTS[t][1])]]]})
         # ONE ExtendedConfigLoader object serving two loads of the text (overrides apply to both)
@@ -277,6 +307,8 @@ class C14(P.TextMixin, Harness):
 
     def observe(self, unit, inp):
         sid, struct = TEXTS[unit['text']]
+        if sid == 'I12':
+            c12.ensure_packages()
         struct = _inst(struct, inp)
         with common.env_scope(common.all_concrete(inp), {}):
             if unit.get('same_loader'):
@@ -320,6 +352,8 @@ class C14(P.TextMixin, Harness):
 
     def expect(self, unit, inp, real):
         sid, struct = TEXTS[unit['text']]
+        if sid == 'I12':
+            c12.ensure_packages()
         struct = _inst(struct, inp)
         try:
             edited = edit(struct, VIEWS[sid], self.specs(unit, inp))
@@ -349,6 +383,26 @@ class C14(P.TextMixin, Harness):
 
     def classify(self, unit, real):
         return real[0]
+
+    def finding(self, unit, inp, real, exp):
+        # F20: an override addressed (by name or type) to a section of an %import-ed type is refused as
+        # 'unknown type name' (syntax error family) although the edited text loads / fails in conversion
+        if TEXTS[unit['text']][0] != 'I12' or list(real) != ['reject', 'syntax']:
+            return None
+        if not (exp[0] == 'ok' or (exp[0] == 'reject' and exp[1] == 'conversion')):
+            return None
+        imported = set()
+        for it in TEXTS[unit['text']][1]:
+            if it[0] == 'sec' and it[1] in ('pa', 'pb', 'pc', 'pe'):
+                imported.add(it[1])
+                if it[2]:
+                    imported.add(it[2].lower())
+        try:
+            specs = self.specs(unit, inp)
+            firsts = [str(sp).split('=', 1)[0].split('/')[0].lower() for sp in specs if '/' in str(sp).split('=', 1)[0]]
+        except Exception:
+            return None
+        return 'F20' if any(f in imported for f in firsts) else None
 
 
 HARNESS = C14()
